@@ -508,7 +508,7 @@ func (x *Exec) convert(fr *Frame, st *State, v *ssa.Convert) Val {
 		hv := x.decls.Fresh("strbytes", "(Array Int (Array Int Int))")
 		x.decls.Fun("strbyte", []string{"Str", "Int"}, "Int")
 		l.ups = append(l.ups, Upd{arr: r, lo: "0", n: ln, havoc: []string{hv}})
-		x.decls.Axiom(hv, fmt.Sprintf("(forall ((a Int) (i Int)) (! (and (<= 0 (select (select %s a) i)) (<= (select (select %s a) i) 255)) :pattern ((select (select %s a) i))))", hv, hv, hv))
+		x.byteArrayFacts(hv)
 		return Val{K: KSlice, T: t, Arr: r, Off: "0", Len: ln, Cap: ln}
 	case from == KSlice && to == KStr:
 		s := x.decls.Fresh("str", "Str")
@@ -634,8 +634,8 @@ func (x *Exec) slice(fr *Frame, st *State, v *ssa.Slice) Val {
 		} else {
 			x.guard(fr, st, v, "bounds:slice", sAnd(sLe("0", lo), sLe(lo, hi), sLe(hi, b.Cap)))
 		}
-		st.addIdx(lo)
-		st.addIdx(hi)
+		st.addIdxSeq(lo, b.Arr)
+		st.addIdxSeq(hi, b.Arr)
 		return Val{K: KSlice, T: t, Arr: b.Arr, Off: sAdd(b.Off, lo), Len: sSub(hi, lo), Cap: sSub(mx, lo)}
 	case KStr:
 		hi := x.strlen(b.S)
@@ -688,7 +688,7 @@ func (x *Exec) indexAddr(fr *Frame, st *State, v *ssa.IndexAddr) Val {
 	switch b.K {
 	case KSlice:
 		x.guard(fr, st, v, "bounds:index", sAnd(sLe("0", i.S), sLt(i.S, b.Len)))
-		st.addIdx(i.S)
+		st.addIdxSeq(i.S, b.Arr)
 		et := b.T.Underlying().(*types.Slice).Elem()
 		return Val{K: KAddr, T: v.Type(), A: &Addr{Kind: AElem, Base: b.Arr, Idx: sAdd(b.Off, i.S), Key: elemKey(et), T: et}}
 	case KRef:
@@ -721,7 +721,7 @@ func (x *Exec) index(fr *Frame, st *State, v *ssa.Index) Val {
 	case KStr:
 		x.guard(fr, st, v, "bounds:index", sAnd(sLe("0", i.S), sLt(i.S, x.strlen(b.S))))
 		x.decls.Fun("strbyte", []string{"Str", "Int"}, "Int")
-		x.decls.Axiom("strbyte", "(forall ((s Str) (i Int)) (! (and (<= 0 (strbyte s i)) (<= (strbyte s i) 255)) :pattern ((strbyte s i))))")
+		x.strbyteFacts()
 		return intVal("(strbyte "+b.S+" "+i.S+")", v.Type())
 	}
 	return opaque(v.Type(), "index of "+kindName(b.K))
@@ -732,7 +732,7 @@ func (x *Exec) lookup(fr *Frame, st *State, v *ssa.Lookup) Val {
 	if m.K == KStr {
 		x.guard(fr, st, v, "bounds:index", sAnd(sLe("0", k.S), sLt(k.S, x.strlen(m.S))))
 		x.decls.Fun("strbyte", []string{"Str", "Int"}, "Int")
-		x.decls.Axiom("strbyte", "(forall ((s Str) (i Int)) (! (and (<= 0 (strbyte s i)) (<= (strbyte s i) 255)) :pattern ((strbyte s i))))")
+		x.strbyteFacts()
 		return intVal("(strbyte "+m.S+" "+k.S+")", v.Type())
 	}
 	if m.K != KRef || k.K == KOpaque {
